@@ -101,8 +101,20 @@ func VerifC14_Cancellation() {
 	vNativeReset()
 	s := newScenario(scenarioOpts{n: 3, cancel: true, outcomes: oNil})
 	vAssume(s.cancelBy != -1)
+	s.cancelEarly = vBool("cancelearly") // the task cancels when it starts (and keeps running) or when it ends
 	s.build()
+	// "observed": the scheduler loop went idle at least once after the
+	// cancellation (its loop polls the context in every such iteration)
+	idleAfterCancel := false
+	vOnIdle(func() {
+		if s.cancelled {
+			idleAfterCancel = true
+		}
+	})
 	err := s.run()
+	if idleAfterCancel || s.ranOnAfterCancel {
+		vAssert("cancellation-seen-by-an-idle-scheduler-is-reported", err != nil)
+	}
 	vObserve("failed", err != nil)
 	if s.cancelBy == -2 {
 		vAssert("cancelled-before-run/error", err != nil)
